@@ -73,6 +73,10 @@ func runC05(r *oblig.Report) {
 	e5path.CycleSegmentStart(c.P, r, "C05.7")
 	r.Rule("C05.6", "path-enumeration", "an edge that gets the placeholder weight of an unresolved cycle root is filed among that root's dependants on the same path", 1)
 	e5path.PlaceholderRegistered(c.P, r, "C05.6", fs)
+	r.Rule("C05.10", "instance-table", "an intersection is computed over operands (the edges of one restriction / one tuple to userset together), and a running set that became empty is never refilled", 1)
+	e5path.IntersectionPerOperand(c.P, r, "C05.10", fs)
+	r.Rule("C05.9", "path-enumeration", "the placeholder weight of an unresolved cycle is given only after the cycle classifier's verdict or a tuple kind (TTU, direct) of the edge itself was established on the path", 1)
+	e5path.PlaceholderNeedsTuple(c.P, r, "C05.9", fs)
 	r.Rule("C05.5", "path-enumeration", "a node without outgoing edges that is not a terminal type ends the weight calculation in an error", 3)
 	e5path.NoTerminalTypeRejected(c.P, r, "C05.5", fs)
 	r.Rule("C05.4", "path-enumeration", "AssignWeights starts the weight calculation from every node it has not visited yet", 1)
@@ -106,6 +110,8 @@ func runC06(r *oblig.Report) {
 	e2own.SharedSlices(c.P, r, "R2.3", build, fs, []string{"wildcards", "conditions"}, weightedStructs)
 	r.Rule("R1.6c", "instance-table", "loops of the weight calculation that collect (pending cycles, dependants, weights) run to completion unless they fail", 3)
 	e5path.CollectingLoopsCompleteIn(c.P, r, "R1.6c", "graph", fs)
+	r.Rule("C05.10", "instance-table", "operand order: an intersection is computed over operands and a running set that became empty is never refilled from a later operand", 1)
+	e5path.IntersectionPerOperand(c.P, r, "C05.10", fs)
 }
 
 func runC11(r *oblig.Report) {
@@ -127,6 +133,8 @@ func runC11(r *oblig.Report) {
 	e2own.GuardedAppends(c.P, r, "C11.3", fs, "wildcards", weightedStructs)
 	r.Rule("C11.6", "path-enumeration", "a wildcard list that is not empty is only ever extended, and an element found missing from it is appended", 3)
 	e5path.WildcardListsOnlyGrow(c.P, r, "C11.6", fs)
+	r.Rule("R1.7", "instance-table", "the accessors of the weighted graph's nodes and edges return the field they are named after (GetWildcards is how the property is observed)", 8)
+	e5path.AccessorFidelity(c.P, r, "R1.7", []string{"WeightedAuthorizationModelEdge", "WeightedAuthorizationModelNode"})
 	r.Rule("C11.5", "instance-table", "the public type named in a wildcard list is the wildcard label without its two-character suffix ':*'", 1)
 	e5path.WildcardNameStrip(c.P, r, "C11.5", fs)
 	r.Rule("C11.4", "path-enumeration", "the dependants of a resolved tuple-cycle root receive the wildcards of that root and of nothing else", 2)
@@ -170,6 +178,10 @@ func runC10(r *oblig.Report) {
 		"graph.WeightedAuthorizationModelGraphBuilder.parseThis", "graph.WeightedAuthorizationModelGraphBuilder.parseTupleToUserset"})
 	r.Rule("C10.7", "path-enumeration", "every union / intersection / exclusion occurrence gets its own operator node and its operands are attached to that node", 1)
 	e5path.OperatorNodePerOccurrence(c.P, r, "C10.7", []string{"graph.WeightedAuthorizationModelGraphBuilder.parseRewrite"})
+	r.Rule("R1.7", "instance-table", "the accessors of the weighted graph's nodes and edges return the field they are named after", 8)
+	e5path.AccessorFidelity(c.P, r, "R1.7", []string{"WeightedAuthorizationModelEdge", "WeightedAuthorizationModelNode"})
+	r.Rule("C10.10", "path-enumeration", "AddEdge adds an edge on every path (de-duplication is UpsertEdge's and asked for by its callers)", 1)
+	e5path.ConstructorAlwaysAdds(c.P, r, "C10.10", "WeightedAuthorizationModelGraph", "AddEdge", "edges")
 	r.Rule("C10.9", "path-enumeration", "the translation of a computed userset creates its edge on every path that does not fail", 1)
 	e5path.StepAlwaysCreatesEdge(c.P, r, "C10.9", []string{"graph.WeightedAuthorizationModelGraphBuilder.parseComputed"})
 	r.Rule("C10.8", "path-enumeration", "a condition is added to an existing edge only after it was found absent from that edge's list", 1)
@@ -223,6 +235,10 @@ func runC17(r *oblig.Report) {
 	e5path.EdgeIdentity(c.P, r, "C10.6", []string{"graph.AuthorizationModelGraphBuilder.upsertEdge", "graph.AuthorizationModelGraphBuilder.hasEdge"})
 	r.Rule("C10.7", "path-enumeration", "every union / intersection / exclusion occurrence gets its own operator node and its operands are attached to that node", 1)
 	e5path.OperatorNodePerOccurrence(c.P, r, "C10.7", []string{"graph.checkRewrite"})
+	r.Rule("R1.7", "instance-table", "the accessors of the plain graph's nodes and edges return the field they are named after", 3)
+	e5path.AccessorFidelity(c.P, r, "R1.7", []string{"AuthorizationModelEdge", "AuthorizationModelNode"})
+	r.Rule("C10.10", "path-enumeration", "AddEdge adds a line on every path that no nil argument turns away", 1)
+	e5path.ConstructorAlwaysAdds(c.P, r, "C10.10", "AuthorizationModelGraphBuilder", "AddEdge", "SetLine")
 	r.Rule("C10.9", "path-enumeration", "the translation of a computed userset creates its edge on every path", 1)
 	e5path.StepAlwaysCreatesEdge(c.P, r, "C10.9", []string{"graph.parseComputed"})
 	r.Rule("C17.5", "instance-table", "PathExists answers with the library reachability query on the looked-up nodes in argument order", 1)
